@@ -161,6 +161,31 @@ TREE_OPS = {
 }
 
 
+def make_tree_plain():
+    from cogent3 import make_tree
+
+    t = make_tree("((Human:0.1,Chimp:0.2)apes:0.3,(Mouse:0.4,(Rat:0.25,Vole:0.5)rv:0.15)rodents:0.6)root;")
+    t.get_node_matching_name("rv").params["support"] = 0.9
+    return t
+
+
+def _rename(t, old, new):
+    t = t.deepcopy()
+    t.get_node_matching_name(old).name = new
+    return t
+
+
+# names that are legal but unusual, on CLADES only / on a tip: blanks, quotes, doubled quotes, brackets, colon, unicode, digits
+TREE_NAME_OPS = {
+    "clade_blank": lambda t: _rename(t, "apes", "Great apes"),
+    "clade_blank2": lambda t: _rename(t, "rodents", "Order Rodentia"),
+    "clade_quotes": lambda t: _rename(t, "rv", 'r""v'),
+    "tip_odd": lambda t: _rename(t, "Vole", "K12 [wild]: #1|é"),
+    "tip_digits": lambda t: _rename(t, "Mouse", "007"),
+    "sorted": lambda t: t.sorted(),
+}
+
+
 # ------------------------------------------------------------------ tables / dict arrays
 def table_proj(t):
     return {"header": list(t.header), "rows": _norm(t.to_list()), "title": t.title, "legend": t.legend, "index": t.index_name, "types": [str(t.columns[c].dtype.kind) for c in t.header]}
@@ -627,6 +652,7 @@ KINDS = {
     "coll": (make_coll, COLL_OPS, aln_proj),
     "new_coll": (make_new_coll, COLL_OPS, aln_proj),
     "tree": (make_tree_, TREE_OPS, tree_proj),
+    "tree_names": (make_tree_plain, TREE_NAME_OPS, tree_proj),
     "table": (make_table_, TABLE_OPS, table_proj),
     "dists": (make_dists, DIST_OPS, darr_proj),
     "dict_array": (make_darr, {"to_normalized": DARR_OPS["to_normalized"]}, darr_proj),
